@@ -1292,6 +1292,61 @@ pub fn fam_multi(tier: Tier) -> Vec<Config> {
     out
 }
 
+/// The same feature (equal by value, separately parsed) delivered more than once.
+pub fn fam_dup(tier: Tier) -> Vec<Config> {
+    let mut out = Vec::new();
+    for with_rule in [false, true] {
+        for conc in [Some(1usize), Some(2), Some(3), None] {
+            for lazy in [false, true] {
+                for copies in [2usize, 3] {
+                    for retry in [false, true] {
+                        for sync in [false, true] {
+                            if copies == 3 && tier == Tier::Quick && (lazy || retry) {
+                                continue;
+                            }
+                            let mut c = base(String::new());
+                            let s = || scen(&[], &[M]);
+                            c.feats = vec![if with_rule {
+                                FeatSpec {
+                                    scenarios: vec![s()],
+                                    rules: vec![RuleSpec { scenarios: vec![s(), s()], ..Default::default() }],
+                                    ..Default::default()
+                                }
+                            } else {
+                                feat(vec![s(), s()])
+                            }];
+                            c.items = (0..copies).map(|_| Item::Feat(0)).collect();
+                            c.conc_builder = Some(conc);
+                            c.lazy = lazy;
+                            c.plan.gates = if sync { GateMode::None } else { GateMode::Steps };
+                            if retry {
+                                c.retries_builder = Some(1);
+                                let infos = c.scen_infos();
+                                // every copy shares the step text: the first two invocations fail
+                                c.plan.outcomes.insert(
+                                    infos[0].calls[0].key.clone(),
+                                    vec![Outcome::PanicString, Outcome::PanicString, Outcome::Pass],
+                                );
+                            }
+                            c.bound = Some(if tier == Tier::Quick { 2 } else { 3 });
+                            c.max_execs = if tier == Tier::Quick { 1_500 } else { 200_000 };
+                            c.name = format!(
+                                "dup/rule{}|c{conc:?}|lazy{}|x{copies}|r{}|sync{}",
+                                u8::from(with_rule),
+                                u8::from(lazy),
+                                u8::from(retry),
+                                u8::from(sync)
+                            );
+                            out.push(c);
+                        }
+                    }
+                }
+            }
+        }
+    }
+    out
+}
+
 pub fn family(name: &str, tier: Tier) -> Vec<Config> {
     match name {
         "seq" => fam_seq(tier),
@@ -1306,6 +1361,7 @@ pub fn family(name: &str, tier: Tier) -> Vec<Config> {
         "l1x" => fam_l1x(tier),
         "resolve" => fam_resolve(tier),
         "multi" => fam_multi(tier),
+        "dup" => fam_dup(tier),
         other => panic!("unknown family {other}"),
     }
 }
@@ -1327,7 +1383,7 @@ pub fn families_for(prop: &str) -> Vec<&'static str> {
         other => panic!("no Engine A families for {other}"),
     };
     let mut v: Vec<&'static str> = own.to_vec();
-    for f in ["seq", "frame", "conc", "serial", "retry", "ff", "panic", "l1", "l1x", "multi"] {
+    for f in ["seq", "frame", "conc", "serial", "retry", "ff", "panic", "l1", "l1x", "multi", "dup"] {
         if !v.contains(&f) {
             v.push(f);
         }
